@@ -12,7 +12,7 @@ RULE = ("Hypothesis draws threshold-directed arrangements in exact dyadic coordi
         "overlap and horizontal gap are placed on, one step below and one step above line_overlap*min(h) and "
         "char_margin*max(w); gaps around word_margin*max(w,h); stacks of lines with vertical gaps around "
         "line_margin*height, equal or different heights around the tolerance, left/right/centre aligned or misaligned "
-        "around the tolerance; one column of 2-5 paragraphs and two columns of equal vertical extent.  Oracle: model "
+        "around the tolerance; one column of 2-5 paragraphs, two columns of equal vertical extent, three one-paragraph columns of different heights with a common centre line; with detect_vertical: one or two stacked-glyph runs (near / far) and a stray single glyph beside them (upper / lower / centre aligned): vertical lines, boxes joining vertical lines only.  Oracle: model "
         "written from docs/source/topic/converting_pdf_to_text.rst over Fractions (join iff overlap > and distance < "
         "(strict); space iff gap > word_margin (strict); lines = maximal runs; boxes = connected components of the "
         "neighbour relation; single column top-to-bottom, left column before right) compared with LTTextLine/LTTextBox "
@@ -139,12 +139,38 @@ def analyze(glyphs, la, bbox, k):
     return (tuple(boxes), groups), bboxes
 
 
+def run_vertical(case, classes):
+    glyphs, la, bbox = case["glyphs"], case["la"], case["bbox"]
+    desc = lambda: "la=%r glyphs=%r" % ({k: str(v) for k, v in la.items()}, [(str(g["x"]), str(g["y"]), str(g["w"]), str(g["h"]), g["t"]) for g in glyphs])  # noqa: E731
+    try:
+        sig0, bb0 = analyze(glyphs, la, bbox, 0)
+        sigk, bbk = analyze(glyphs, la, bbox, case["k"]) if case["k"] else (sig0, bb0)
+    except Exception as e:
+        return Outcome(classes, True, fail="analyze raised %s: %s; %s" % (type(e).__name__, e, desc()))
+    if case["k"] and sigk != sig0:
+        return Outcome(classes, True, fail="result changes when every coordinate is multiplied by 2^%d: %r vs %r; %s" % (
+            case["k"], sigk, sig0, desc()))
+    pos = {g["id"]: i for i, g in enumerate(glyphs)}
+    got_boxes = [b for b in sig0[0] if b[0] != "empty-line"]
+    for vl in case["vlines"]:
+        want = tuple(pos[i] for i in vl)
+        if not any(ln[0] == "LTTextLineVertical" and ln[1] == want for b in got_boxes for ln in b[2]):
+            return Outcome(classes, True, fail="stacked glyphs %r are not one vertical line: %r; %s" % (want, got_boxes, desc()))
+    got = sorted(sorted(i for ln in b[2] for i in ln[1]) for b in got_boxes)
+    exp = sorted(sorted(pos[i] for i in g) for g in case["groups"])
+    if got != exp:
+        return Outcome(classes, True, fail="text boxes %r, the vertical neighbour relation gives %r; %s" % (got, exp, desc()))
+    return Outcome(classes, True, sample={"kind": "vertical", "tags": case["tags"], "k": case["k"]})
+
+
 def run_case(case):
     glyphs, la, bbox = case["glyphs"], case["la"], case["bbox"]
     classes = ["kind:" + case["kind"]] + list(case.get("tags", []))
     nt = bool(case.get("near")) or case["k"] != 0
     if case.get("near"):
         classes.append("near-threshold")
+    if case["kind"] == "vertical":
+        return run_vertical(case, classes)
     if any(nested(a, b) for a, b in zip(glyphs, glyphs[1:])):
         return Outcome(classes + ["nested-skipped"], False)
     lines, boxes, amb = model(glyphs, la)
@@ -183,7 +209,7 @@ def run_case(case):
         if any(len(c) > 1 for c in boxes):
             classes.append("multi-line-box")
         # ---- order of boxes for column arrangements
-        if case["kind"] in ("column", "two-columns") and la.get("boxes_flow") is not None:
+        if case["kind"] in ("column", "two-columns", "three-columns") and la.get("boxes_flow") is not None:
             order = [b[2][0][1][0] for b in sorted(got_boxes, key=lambda b: b[1])]  # first glyph id of each box, by index
             exp_order = case["box_order"]
             got_order = [g for g in order if g in set(exp_order)]
@@ -345,6 +371,20 @@ def column_cases(draw):
             y -= 4 * h
         return gl, firsts, y
 
+    if draw(st.integers(0, 3)) == 0:
+        # three one-paragraph columns of different heights centred on the same horizontal line, in any content order:
+        # every pair is a left and a right column, so the boxes come out left, middle, right
+        counts = draw(st.sampled_from([(1, 6, 1), (2, 7, 1), (1, 5, 2), (3, 3, 3), (6, 1, 5), (2, 8, 2), (1, 4, 6)]))
+        mid = Fr(400)
+        cols = []
+        for x0, n in zip((Fr(50), Fr(200), Fr(350)), counts):
+            height = n * h + (n - 1) * (lead - h)
+            cols.append(column(x0, mid + height / 2, [n]))
+        perm = draw(st.permutations([0, 1, 2]))
+        gl = [g for i in perm for g in cols[i][0]]
+        pos = {g["id"]: i for i, g in enumerate(gl)}
+        return {"kind": "three-columns", "glyphs": gl, "la": la, "near": False,
+                "box_order": [pos[cols[i][1][0]] for i in (0, 1, 2)]}
     shape = draw(st.lists(st.integers(1, 3), min_size=2, max_size=5))
     if not two:
         gl, firsts, _ = column(Fr(50), Fr(700), shape)
@@ -375,8 +415,58 @@ def _reverse_lines(gl):
 
 
 @st.composite
+def vertical_cases(draw):
+    """detect_vertical: stacked glyphs form vertical lines; the neighbour relation of a vertical line (same width,
+    lower/upper/centre aligned, within line_margin*width; LTTextLineVertical.find_neighbors) holds between vertical
+    lines only.  Placements are clearly inside / outside every tolerance."""
+    w, h = draw(st.sampled_from([(Fr(10), Fr(10)), (Fr(8), Fr(12)), (Fr(12), Fr(8))]))
+    la = {"line_overlap": Fr(1, 2), "char_margin": Fr(1, 2), "line_margin": Fr(2), "word_margin": Fr(1, 8),
+          "boxes_flow": draw(st.sampled_from([Fr(1, 2), None, Fr(0)])), "detect_vertical": True}
+    n = draw(st.integers(3, 6))
+    x0, top = Fr(200), Fr(600)
+    gid = [0]
+
+    def glyph(x, y):
+        g = {"x": x, "y": y, "w": w, "h": h, "t": _letter(gid[0]), "id": gid[0]}
+        gid[0] += 1
+        return g
+
+    def run(x, count, ytop):
+        return [glyph(x, ytop - (i + 1) * h) for i in range(count)]
+
+    gl, groups = [], []
+    stray = draw(st.sampled_from(["upper", "lower", "centre", "none-far", "off"]))
+    side = draw(st.sampled_from([-1, 1]))
+    if stray != "off":
+        # a single glyph is a horizontal line; one glyph width away: not joined into the run's line (char_margin 1/2)
+        # but inside line_margin*width of the vertical line
+        sy = {"upper": top - h, "lower": top - n * h, "centre": top - n * h / 2 - h / 2, "none-far": top - h}[stray]
+        sx = x0 + side * 2 * w if stray != "none-far" else x0 + side * 12 * w
+        gl.append(glyph(sx, sy))
+        groups.append({gl[-1]["id"]})
+    a = run(x0, n, top)
+    gl += a
+    second = draw(st.sampled_from(["near", "far", "off"]))
+    if second == "off":
+        groups.append({g["id"] for g in a})
+    else:
+        # on the other side of the run than the stray glyph
+        b = run(x0 - side * (2 * w if second == "near" else 12 * w), n, top)
+        gl += b
+        if second == "near":
+            groups.append({g["id"] for g in a + b})
+        else:
+            groups += [{g["id"] for g in a}, {g["id"] for g in b}]
+    return {"kind": "vertical", "glyphs": gl, "la": la, "near": False, "groups": [sorted(g) for g in groups],
+            "vlines": [[g["id"] for g in a]] + ([[g["id"] for g in b]] if second != "off" else []),
+            "tags": ["stray:" + stray, "second:" + second]}
+
+
+@st.composite
 def cases(draw, kind):
-    c = draw({"run": pair_cases(), "stack": stack_cases(), "column": column_cases()}[kind])
+    if kind == "column" and draw(st.integers(0, 4)) == 0:
+        kind = "vertical"
+    c = draw({"run": pair_cases(), "stack": stack_cases(), "column": column_cases(), "vertical": vertical_cases()}[kind])
     c["k"] = draw(st.sampled_from([0, 0, 1, -1, 3, -3, 6, -6, 2]))
     c["bbox"] = (0, 0, 612, 792)
     return c
